@@ -9,6 +9,27 @@ Open Scope N_scope.
 Definition config_lookup (sections : list (list N * cv)) (section k : list N) : option cv :=
   match dget section sections with Some (Node m) => dget k m | _ => None end.
 
+(* every section is a mapping (update_section only ever stores mappings) *)
+Definition section_ok (sections : list (list N * cv)) (section : list N) : bool :=
+  match dget section sections with Some (Leaf _ _) => false | _ => true end.
+
+(* the translated _get_config_value_raw (with @no_default_value), characterised *)
+Lemma raw_spec sections section k d : section_ok sections section = true ->
+  LanguageConfig__get_config_value_raw sections (pv_str section) (pv_str k) d =
+  match config_lookup sections section k with
+  | Some v => CfgOk (PV (unwrap_default v))
+  | None => match d with PUnset => CfgKeyError | PV x => CfgOk (PV (unwrap_default x)) end
+  end.
+Proof.
+  unfold section_ok, config_lookup, LanguageConfig__get_config_value_raw, no_default_value, pv_str. cbn [rbind py_getitem].
+  destruct (dget section sections) as [[d0 a0|m]|]; [discriminate| |]; intros _.
+  - cbn [rbind py_getitem]. destruct (dget k m) as [[dd a|mm]|]; cbn [rbind py_is_default is_default py_default_value unwrap_default].
+    + destruct dd; reflexivity.
+    + reflexivity.
+    + destruct d as [|[dd a|mm]]; cbn; try reflexivity. destruct dd; reflexivity.
+  - destruct d as [|[dd a|mm]]; cbn; try reflexivity. destruct dd; reflexivity.
+Qed.
+
 Lemma digit_codes_head u : u <> Decimal.Nil -> exists c r, digit_codes u = c :: r /\ 48 <= c <= 57.
 Proof. destruct u; [congruence|..]; intros _; eexists _, _; (split; [reflexivity|lia]). Qed.
 
@@ -34,44 +55,26 @@ Proof.
   - unfold py_str_int. cbn [Z.to_int]. eexists _, _. repeat split; [left; reflexivity | discriminate].
 Qed.
 
-(* get_config_value_as_bool: complete truth table, for every configuration, section, key and default *)
-Theorem as_bool_truth_table sections section k dflt :
-  config_value_as_bool sections section k dflt =
+
+(* the translated get_config_value *)
+Lemma value_gen_spec sections section k (dflt : option (list N)) : section_ok sections section = true ->
+  LanguageConfig_get_config_value sections (pv_str section) (pv_str k) (match dflt with Some d => pv_str d | None => pv_none end) =
   match config_lookup sections section k with
-  | None => CfgOk dflt
-  | Some (Leaf _ a) => match bool_table a with Some b => CfgOk b | None => CfgUnmodelled end
+  | None => match dflt with Some d => CfgOk (pv_str d) | None => CfgKeyError end
+  | Some (Leaf _ ANone) => CfgOk (pv_str [])
+  | Some (Leaf _ a) => match py_str a with Some s => CfgOk (pv_str s) | None => CfgUnmodelled end
   | Some (Node _) => CfgUnmodelled
   end.
 Proof.
-  unfold config_value_as_bool, config_value, config_raw, config_lookup.
-  assert (D : forall o : option cv, o = None ->
-              match option_map unwrap_default (option_map (fun s => Leaf false (AStr s))
-                      (Some (if dflt then [116; 114; 117; 101] else [102; 97; 108; 115; 101]))) with
-              | None => @CfgKeyError bool | Some _ => CfgOk dflt end = CfgOk dflt) by (intros; reflexivity).
-  destruct (dget section sections) as [[d0 a0|m]|]; try (destruct dflt; reflexivity).
-  destruct (dget k m) as [[d a|m']|]; try (destruct dflt; reflexivity).
-  cbn [unwrap_default].
-  destruct a as [|b|z|s|i]; cbn [py_str bool_table].
-  - reflexivity.
-  - destruct b; reflexivity.
-  - destruct (Z.eqb_spec z 0) as [->|Hz]; [reflexivity|]. cbn [negb].
-    destruct (py_str_int_nonzero z Hz) as (c & r & E & Hc & Hn).
-    assert (A : str_eqb (ascii_lower (py_str_int z)) [102; 97; 108; 115; 101] = false).
-    { rewrite E. cbn [ascii_lower map str_eqb].
-      assert (L : (if (65 <=? c) && (c <=? 90) then c + 32 else c) = c).
-      { destruct Hc as [->|Hc]; [reflexivity|].
-        destruct (N.leb_spec 65 c); [lia|reflexivity]. }
-      rewrite L. destruct (N.eqb_spec c 102); [lia|reflexivity]. }
-    assert (B : str_eqb (py_str_int z) [48] = false).
-    { destruct (str_eqb_spec (py_str_int z) [48]); [contradiction|reflexivity]. }
-    rewrite A, B. cbn [orb]. rewrite E. reflexivity.
-  - destruct (str_eqb (ascii_lower s) [102; 97; 108; 115; 101]), (str_eqb s [48]), s; reflexivity.
-  - reflexivity.
+  intros Hs. unfold LanguageConfig_get_config_value.
+  destruct dflt as [d|]; cbn [rbind py_is_none pv_str pv_none]; fold (pv_str section); fold (pv_str k);
+    rewrite (raw_spec _ _ _ _ Hs); destruct (config_lookup sections section k) as [[dd a|m]|]; cbn [rbind unwrap_default py_is_none]; try reflexivity;
+    destruct a as [|b|z|s|i|i]; cbn; try reflexivity; destruct b; reflexivity.
 Qed.
 
 (* get_config_value: the text of the stored value; None reads as the empty string; the default only for a missing entry;
    a DefaultValue marking of the stored value is invisible *)
-Theorem config_value_spec sections section k dflt :
+Theorem config_value_spec sections section k dflt : section_ok sections section = true ->
   config_value sections section k dflt =
   match config_lookup sections section k with
   | None => match dflt with Some d => CfgOk d | None => CfgKeyError end
@@ -80,14 +83,51 @@ Theorem config_value_spec sections section k dflt :
   | Some (Node _) => CfgUnmodelled
   end.
 Proof.
-  unfold config_value, config_raw, config_lookup.
-  destruct (dget section sections) as [[d0 a0|m]|]; try (destruct dflt; reflexivity).
-  destruct (dget k m) as [[d a|m']|]; destruct dflt; reflexivity.
+  intros Hs. unfold config_value, res_map. rewrite (value_gen_spec sections section k dflt Hs).
+  destruct (config_lookup sections section k) as [[dd a|m]|]; [|reflexivity|destruct dflt; reflexivity].
+  destruct a as [|b|z|s|i|i]; cbn; try reflexivity. destruct b; reflexivity.
+Qed.
+
+(* get_config_value_as_bool: complete truth table, for every configuration, section, key and default *)
+Theorem as_bool_truth_table sections section k dflt : section_ok sections section = true ->
+  config_value_as_bool sections section k dflt =
+  match config_lookup sections section k with
+  | None => CfgOk dflt
+  | Some (Leaf _ a) => match bool_table a with Some b => CfgOk b | None => CfgUnmodelled end
+  | Some (Node _) => CfgUnmodelled
+  end.
+Proof.
+  intros Hs. unfold config_value_as_bool, res_map, LanguageConfig_get_config_value_as_bool.
+  cbn [rbind pv_bool py_truthy cv_truthy atom_truthy].
+  assert (E : (if negb dflt then CfgOk (PV (Leaf false (AStr [102; 97; 108; 115; 101]))) else CfgOk (PV (Leaf false (AStr [116; 114; 117; 101]))))
+              = CfgOk (match Some (if dflt then [116; 114; 117; 101] else [102; 97; 108; 115; 101]) with Some d => pv_str d | None => pv_none end))
+    by (destruct dflt; reflexivity).
+  rewrite E. cbn [rbind]. rewrite (value_gen_spec sections section k (Some (if dflt then [116; 114; 117; 101] else [102; 97; 108; 115; 101])) Hs).
+  destruct (config_lookup sections section k) as [[dd a|m]|]; [| reflexivity | destruct dflt; reflexivity].
+  destruct a as [|b|z|s|i|i]; cbn [py_str bool_table rbind].
+  - reflexivity.
+  - destruct b; reflexivity.
+  - destruct (Z.eqb_spec z 0) as [->|Hz]; [reflexivity|]. cbn [negb].
+    destruct (py_str_int_nonzero z Hz) as (c & r & E1 & Hc & Hn).
+    assert (A : str_eqb (ascii_lower (py_str_int z)) [102; 97; 108; 115; 101] = false).
+    { rewrite E1. cbn [ascii_lower map str_eqb].
+      assert (L : (if (65 <=? c) && (c <=? 90) then c + 32 else c) = c).
+      { destruct Hc as [->|Hc]; [reflexivity|]. destruct (N.leb_spec 65 c); [lia|reflexivity]. }
+      rewrite L. destruct (N.eqb_spec c 102); [lia|reflexivity]. }
+    assert (B : str_eqb (py_str_int z) [48] = false).
+    { destruct (str_eqb_spec (py_str_int z) [48]); [contradiction|reflexivity]. }
+    unfold pv_str. cbn [py_lower rbind py_eq atom_eqb]. rewrite A. cbn [rbind]. rewrite B. cbn [py_truthy cv_truthy atom_truthy].
+    rewrite E1. reflexivity.
+  - unfold pv_str. cbn [py_lower rbind py_eq atom_eqb py_truthy cv_truthy atom_truthy].
+    destruct (str_eqb (ascii_lower s) [102; 97; 108; 115; 101]); cbn [rbind orb negb]; [reflexivity|].
+    destruct (str_eqb s [48]); cbn [orb negb]; [reflexivity|]. destruct s; reflexivity.
+  - reflexivity.
+  - reflexivity.
 Qed.
 
 (* get_config_value_as_dict: the stored map itself; the default for a missing entry or (when one is given) for a non-map;
    TypeError for a non-map without default; KeyError for a missing entry without default *)
-Theorem config_value_as_dict_spec sections section k dflt :
+Theorem config_value_as_dict_spec sections section k dflt : section_ok sections section = true ->
   config_value_as_dict sections section k dflt =
   match config_lookup sections section k with
   | Some (Node m) => CfgOk m
@@ -95,7 +135,22 @@ Theorem config_value_as_dict_spec sections section k dflt :
   | None => match dflt with Some d => CfgOk d | None => CfgKeyError end
   end.
 Proof.
-  unfold config_value_as_dict, config_raw, config_lookup.
-  destruct (dget section sections) as [[d0 a0|m]|]; try (destruct dflt; reflexivity).
-  destruct (dget k m) as [[d a|m']|]; destruct dflt; reflexivity.
+  intros Hs. unfold config_value_as_dict, res_map, LanguageConfig_get_config_value_as_dict.
+  destruct dflt as [d|]; cbn [rbind py_is_none pv_none]; rewrite (raw_spec _ _ _ _ Hs);
+    destruct (config_lookup sections section k) as [[dd a|m]|]; reflexivity.
+Qed.
+
+(* get_config_value_as_list: the stored list; otherwise as for dicts *)
+Theorem config_value_as_list_spec sections section k dflt : section_ok sections section = true ->
+  config_value_as_list sections section k dflt =
+  match config_lookup sections section k with
+  | Some (Leaf _ (AList i)) => CfgOk i
+  | Some _ => match dflt with Some d => CfgOk d | None => CfgTypeError end
+  | None => match dflt with Some d => CfgOk d | None => CfgKeyError end
+  end.
+Proof.
+  intros Hs. unfold config_value_as_list, res_map, LanguageConfig_get_config_value_as_list.
+  destruct dflt as [d|]; cbn [rbind py_is_none pv_none]; rewrite (raw_spec _ _ _ _ Hs);
+    destruct (config_lookup sections section k) as [[dd a|m]|]; try reflexivity;
+    destruct a; reflexivity.
 Qed.
